@@ -31,6 +31,124 @@ class MonNearTie(object):
                     return
 
 
+class MonOrderWitness(object):
+    """Witness facts for the two known findings, per step of the run WITHOUT its absence steps (index = step minus
+    the absence steps before it): was the FIFO order of two waiting tasks at that step decided by READY entries that
+    were logged at project absence steps (raw READY counts order the pair differently than the counts without those
+    entries)?  did two waiting tasks have slacks that differ by float noise only?"""
+
+    def __init__(self, absence):
+        self.abs = sorted(set(absence))
+        self.fifo_sensitive = set()
+        self.near_tie = set()
+
+    def _index(self, s):
+        return s - sum(1 for a in self.abs if a < s)
+
+    def on_phase(self, tr, project, phase, snap):
+        if phase != "updated" or snap.step in self.abs:
+            return
+        k = self._index(snap.step)
+        ts = [t for t, st in snap.tstate.items() if st in (M.TS.READY, M.TS.WORKING)]
+        raw = {t: sum(1 for x in t.state_record_list if x == M.TS.READY) for t in ts}
+        cor = {t: sum(1 for i_, x in enumerate(t.state_record_list) if x == M.TS.READY and i_ not in self.abs) for t in ts}
+        sl = {t: t.lst - t.est for t in ts}
+        for i in range(len(ts)):
+            for j in range(i + 1, len(ts)):
+                x, y = ts[i], ts[j]
+                if (raw[x] > raw[y]) - (raw[x] < raw[y]) != (cor[x] > cor[y]) - (cor[x] < cor[y]):
+                    self.fifo_sensitive.add(k)
+                d = abs(sl[x] - sl[y])
+                if 0.0 < d < 1e-9:
+                    self.near_tie.add(k)
+
+
+class counterfactual_sort(object):
+    """Run the library's OWN sort_task_list on corrected inputs, to confirm the mechanism of a known finding:
+    mode 'fifo'   - every task's state log is shown to the sort without the entries of the project absence steps;
+    mode 'tslack' - est / lst are shown rounded to 9 decimals (float noise of the PERT sums removed).
+    If the difference between the absence run and the absence-free run disappears under the correction, the known
+    mechanism - and nothing else - caused it."""
+
+    def __init__(self, mode, absence=()):
+        self.mode, self.abs = mode, set(absence)
+
+    def __enter__(self):
+        self.orig = ns.pr.sort_task_list
+        self.bp_had = getattr(ns.bp, "sort_task_list", None)
+        orig, mode, abs_ = self.orig, self.mode, self.abs
+
+        def wrapper(task_list, *a, **k):
+            rule = a[0] if a else k.get("priority_rule_mode", ns.TaskPriorityRuleMode.TSLACK)
+            saved = []
+            try:
+                if mode == "fifo" and rule == ns.TaskPriorityRuleMode.FIFO:
+                    for t in task_list:
+                        saved.append((t, "state_record_list", t.state_record_list))
+                        t.state_record_list = [x for i_, x in enumerate(t.state_record_list) if i_ not in abs_]
+                elif mode == "tslack" and rule == ns.TaskPriorityRuleMode.TSLACK:
+                    for t in task_list:
+                        saved.append((t, "est", t.est))
+                        saved.append((t, "lst", t.lst))
+                        t.est, t.lst = round(t.est, 9), round(t.lst, 9)
+                return orig(task_list, *a, **k)
+            finally:
+                for t, nm, v in saved:
+                    setattr(t, nm, v)
+        ns.pr.sort_task_list = wrapper
+        if self.bp_had is not None:
+            ns.bp.sort_task_list = wrapper
+        return self
+
+    def __exit__(self, *exc):
+        ns.pr.sort_task_list = self.orig
+        if self.bp_had is not None:
+            ns.bp.sort_task_list = self.bp_had
+        return False
+
+
+def confirmed_by_counterfactual(mode, spec, s2, L, case):
+    """True if, with the corrected sort inputs, the absence run + remove_absence_time_list equals the absence-free run."""
+    try:
+        with counterfactual_sort(mode, L):
+            I.set_order(I.default_order(spec))
+            mb = B.build(spec)
+            B.run(mb.project, spec)
+            I.set_order(I.default_order(spec))
+            mc = B.build(s2)
+            if case.get("pause"):
+                B.run(mc.project, s2, max_time=case["pause"])
+                B.run(mc.project, s2, initialize_state_info=False, initialize_log_info=False)
+            else:
+                B.run(mc.project, s2)
+            mc.project.remove_absence_time_list()
+        return B.dump(mb.project, live=False) == B.dump(mc.project, live=False)
+    except Exception:
+        return False
+
+
+def first_divergence(a, b):
+    """First step index at which any per-step log of the two dumps differs (None if only lengths / scalars differ)."""
+    best = None
+
+    def walk(x, y):
+        nonlocal best
+        if isinstance(x, dict) and isinstance(y, dict):
+            for k_ in set(x) & set(y):
+                walk(x[k_], y[k_])
+        elif isinstance(x, list) and isinstance(y, list):
+            n = min(len(x), len(y))
+            for i_ in range(n):
+                if x[i_] != y[i_]:
+                    if best is None or i_ < best:
+                        best = i_
+                    return
+            if len(x) != len(y) and (best is None or n < best):
+                best = n
+    walk(a, b)
+    return best
+
+
 def absence_list(rng):
     base = set(rng.sample(range(0, 14), rng.randint(1, 4)))
     r = rng.random()
@@ -93,6 +211,11 @@ def make_case(prop, seed, i, tier):
             t["auto"] = False
     spec["sim"]["auto_flag"] = flag
     spec["sim"]["absence"] = []
+    if rng.random() < 0.4:
+        from .p_c08 import add_due_times
+        add_due_times(rng, spec)          # due times are absolute step numbers: a forward run must not depend on them
+    if rng.random() < 0.3:
+        spec["sim"]["rule"] = rng.choice([0, 4])     # more weight on the two rules with a known finding (TSLACK, FIFO)
     case = dict(prop=prop, i=i, kind="equivalence", spec=spec, absence=absence_list(rng) if long_block is None else long_block)
     r = rng.random()
     if r < 0.35:
@@ -158,8 +281,9 @@ def run_case(case):
     base = B.build(spec)
     e = None
     nt0 = MonNearTie()
+    ow0 = MonOrderWitness([])
     try:
-        with I.tracing(I.Tracer([nt0])):
+        with I.tracing(I.Tracer([nt0, ow0])):
             B.run(base.project, spec)
     except Exception as ex:
         e = exc_info(ex)
@@ -177,7 +301,8 @@ def run_case(case):
     m2 = B.build(s2)
     # count absence steps with a WORKING task (non-triviality) with the in-step monitor attached
     nt1 = MonNearTie()
-    tr = I.Tracer([M.MonC10(), nt1])
+    ow1 = MonOrderWitness(L)
+    tr = I.Tracer([M.MonC10(), nt1, ow1])
     ready_logged_at_absence = False
     try:
         with I.tracing(tr):
@@ -195,17 +320,20 @@ def run_case(case):
                     m2 = _M()
                     res.count("C10.equivalence_paused_via_json")
                     # (restored objects are new ones: the in-step monitor does not follow them)
-                    with I.tracing(I.Tracer([nt1])):
+                    with I.tracing(I.Tracer([nt1, ow1])):
                         B.run(m2.project, s2, initialize_state_info=False, initialize_log_info=False)
                 else:
                     B.run(m2.project, s2, initialize_state_info=False, initialize_log_info=False)
                 res.count("C10.equivalence_paused_and_resumed")
             else:
                 B.run(m2.project, s2)
+            working_logged_at_absence = False
             for t in m2.project.workflow.task_list:
                 for a in L:
                     if a < len(t.state_record_list) and t.state_record_list[a] == M.TS.READY:
                         ready_logged_at_absence = True
+                    if a < len(t.state_record_list) and t.state_record_list[a] == M.TS.WORKING:
+                        working_logged_at_absence = True     # (the display rule itself is broken: not the known mechanism)
             m2.project.remove_absence_time_list()
     except Exception as ex:
         res["aborted"] = exc_info(ex)
@@ -224,10 +352,18 @@ def run_case(case):
         beyond = [x for x in L if x >= base.project.time + len([y for y in L if y < x])]
         owner = path.split("/")[1] if "/" in path else path
         mech = "C10/equivalence"
-        if spec["sim"]["rule"] == int(ns.TaskPriorityRuleMode.FIFO) and ready_logged_at_absence:
-            # the FIFO key counts READY entries of the log, which include project absence steps
+        kstar = first_divergence(a, b)
+        res.count("C10.equivalence_differences_classified")
+        if (spec["sim"]["rule"] == int(ns.TaskPriorityRuleMode.FIFO) and ready_logged_at_absence and not working_logged_at_absence
+                and kstar is not None and kstar in ow1.fifo_sensitive
+                and confirmed_by_counterfactual("fifo", spec, s2, L, case)):
+            # the FIFO key counts READY entries of the log, which include those logged at project absence steps - and at
+            # the first step where the two results part, that is what ordered two waiting tasks differently
             mech += ":FIFO-key-counts-READY-entries-logged-at-absence-steps"
-        elif spec["sim"]["rule"] == int(ns.TaskPriorityRuleMode.TSLACK) and (nt0.near_tie or nt1.near_tie):
+        elif (spec["sim"]["rule"] == int(ns.TaskPriorityRuleMode.TSLACK) and kstar is not None
+              and (kstar in ow0.near_tie or kstar in ow1.near_tie)
+              and confirmed_by_counterfactual("tslack", spec, s2, L, case)):
+            # at the first step where the two results part, two waiting tasks had slacks that differ by float noise only
             mech += ":TSLACK-near-tie-decided-by-float-rounding"
         elif owner.startswith("WP:") and path.split("/")[2] == "p":
             mech += ":workplace-content-log-not-edited"
